@@ -45,6 +45,59 @@ TEXTS = [
 ]
 
 
+class _RawSegments(io.RawIOBase):
+    """The read end of a pipe whose writer delivers the stream in segments: a read returns what has arrived, never more
+    than up to the next segment boundary (the classic short read); end of file after the last segment."""
+
+    def __init__(self, data: bytes, cuts: list[int]) -> None:
+        super().__init__()
+        self._data = data
+        self._bounds = sorted({c for c in cuts if 0 < c < len(data)}) + [len(data)]
+        self._pos = 0
+
+    def readable(self) -> bool:
+        return True
+
+    def readinto(self, b: Any) -> int:
+        if self._pos >= len(self._data):
+            return 0
+        bound = next(x for x in self._bounds if x > self._pos)
+        n = min(len(b), bound - self._pos)
+        b[:n] = self._data[self._pos : self._pos + n]
+        self._pos += n
+        return n
+
+
+class SimPipePath:
+    """What PenlogReader sees of a log arriving on stdin / a fifo (the seam is its `path` argument)."""
+
+    suffix = ""
+    name = "stdin"
+
+    def __init__(self, data: bytes, cuts: list[int]) -> None:
+        self.data = data
+        self.cuts = cuts
+
+    def is_file(self) -> bool:
+        return False
+
+    def is_fifo(self) -> bool:
+        return True
+
+    def exists(self) -> bool:
+        return True
+
+    def open(self, mode: str = "rb", buffering: int = -1, **kw: Any) -> Any:
+        raw = _RawSegments(self.data, self.cuts)
+        return raw if buffering == 0 else io.BufferedReader(raw)
+
+    def __str__(self) -> str:
+        return "/dev/stdin"
+
+    def __fspath__(self) -> str:
+        return "/dev/stdin"
+
+
 def gen_records(rng: Any, n: int) -> list[dict[str, Any]]:
     out = []
     for i in range(n):
@@ -76,7 +129,7 @@ class C17(Check):
         "%-args, '<5>'-looking and JSON-looking text; all seven levels; tags absent / empty / several; exception traces) logged by 1-4 producer tasks at planned "
         "instants x file level DEBUG/TRACE x consumer lag {keeps up, k records per tick, nothing until close} x close instant anywhere (immediately, with records "
         "still queued, with producers still logging afterwards) x reader modes {forward, len, reverse, offset k in {0,1,n-1,-1,-k,-n,-(n+3)}, priority threshold "
-        "by every level, hr --head/--tail/-r with n in {0,1,n-1,n,n+1,100}} x containers {.zst, .gz, plain, plain without the '<prio>' prefix, plain with the prefix on a drawn subset of lines}. non-trivial = records were still queued when the "
+        "by every level, hr --head/--tail/-r with n in {0,1,n-1,n,n+1,100}} x containers {.zst, .gz, plain, plain without the '<prio>' prefix, plain with the prefix on a drawn subset of lines, stdin as a pipe that delivers the plain stream in segments (short reads; hr FILE '-')}. non-trivial = records were still queued when the "
         "handler was closed, or records were logged after the close; distinct = (lag mode, close position class, length class, text classes)."
     )
     assumptions = [
@@ -88,6 +141,7 @@ class C17(Check):
         "add_zst_log_handler / remove_zst_log_handler, QueueHandler, _ZstdFileHandler, _JSONFormatter, zstandard": "real",
         "QueueListener consumer thread": "replaced by SteppedQueueListener (dequeue/handle real, scheduling by the plan)",
         "PenlogReader, PenlogRecord, hr._main": "real",
+        "stdin / fifo": "SimPipePath: pipe semantics (a read returns at most what one writer segment delivered), handed to the reader through its path argument",
     }
     shrink_lists = ["records"]
     quick_runs = 1000
@@ -229,7 +283,26 @@ class C17(Check):
         noprefix.write_bytes(b"".join(strip_prefix(l) for l in lines))
         mixed = tmp / "mixed.json"
         mixed.write_bytes(b"".join(strip_prefix(l) if rng.random() < 0.5 else l for l in lines))
-        containers = [("zst", logpath), ("gz", gz), ("plain", plain), ("plain-without-prefix", noprefix), ("plain-mixed-prefix", mixed)]
+        # the plain stream arriving on stdin, delivered by the writer in segments (pipe semantics: short reads)
+        size = len(raw)
+        cut_mode = rng.choice(["whole", "pipe-buffer", "random", "lines", "tiny-head"])
+        if cut_mode == "whole" or size < 2:
+            cuts: list[int] = []
+        elif cut_mode == "pipe-buffer":
+            cuts = list(range(65536, size, 65536)) or [size // 2]
+        elif cut_mode == "random":
+            cuts = sorted(rng.randrange(1, size) for _ in range(rng.choice([1, 2, 5])))
+        elif cut_mode == "lines":
+            acc, cuts = 0, []
+            for l in lines[:-1]:
+                acc += len(l)
+                if rng.random() < 0.3:
+                    cuts.append(acc)
+            cuts = cuts or [len(lines[0])] if lines else []
+        else:
+            cuts = [1, min(size - 1, 7)]
+        containers = [("zst", logpath), ("gz", gz), ("plain", plain), ("plain-without-prefix", noprefix), ("plain-mixed-prefix", mixed),
+                      ("stdin-pipe", SimPipePath(raw, cuts))]
         tzinfo = glog.tz
 
         def key(rec: Any) -> tuple[Any, ...]:
@@ -353,7 +426,11 @@ class C17(Check):
             return ""
 
         glog.PenlogRecord.__str__ = cap  # type: ignore[method-assign]
-        sys.argv = ["hr", "--color", "never"] + args + [str(path)]
+        sys.argv = ["hr", "--color", "never"] + args + ["-" if isinstance(path, SimPipePath) else str(path)]
+        real_path_cls = glog.Path
+        if isinstance(path, SimPipePath):
+            # hr FILE "-" makes the reader open Path("/dev/stdin"): hand it the simulated pipe there
+            glog.Path = lambda p_, *a_: path if str(p_) == "/dev/stdin" else real_path_cls(p_, *a_)  # type: ignore[misc,assignment]
         mode = "tail" if "--tail" in args else "head" if "--head" in args else "reverse" if "-r" in args else "filter"
         try:
             with contextlib.redirect_stdout(io.StringIO()), contextlib.redirect_stderr(io.StringIO()):
@@ -366,6 +443,7 @@ class C17(Check):
             return
         finally:
             sys.argv = old_argv
+            glog.Path = real_path_cls  # type: ignore[misc]
             glog.PenlogRecord.__str__ = old_str  # type: ignore[method-assign]
         if rc != 0:
             violation(res, "C17/hr", f"C17/hr:{mode}:exit-{rc}", f"hr {' '.join(args)} exited with {rc}")
